@@ -124,6 +124,42 @@ func (e *Engine) verifAPI(s *State, f *Frame, call *ssa.Call, fn *ssa.Function, 
 		s.Unwind = intArg(args[0])
 		set(nil)
 		return true
+	case short == "verifSpawn":
+		fv := args[0].(FuncV)
+		if fv.Fn == nil {
+			unsupp("verifSpawn of nil")
+		}
+		s.NextTID++
+		t := &Thread{ID: s.NextTID}
+		saved := s.Frames
+		s.Frames = nil
+		e.pushFrame(s, fv.Fn, nil, fv.Bind, nil)
+		t.Frames = s.Frames
+		t.Frames[0].Drop = true
+		s.Frames = saved
+		s.Parked = append(s.Parked, t)
+		e.Stats["threads-spawned"]++
+		set(nil)
+		return true
+	case short == "verifYield":
+		set(nil)
+		e.scheduleFrom(s, true)
+		return true
+	case short == "verifJoinAll":
+		set(nil)
+		if len(s.Parked) == 0 {
+			return true
+		}
+		s.CurWait = true
+		// park this thread as waiting and run the others to completion (all orders)
+		me := &Thread{ID: s.CurID, Frames: s.Frames, Waiting: true}
+		s.Frames = nil
+		s.Parked = append(s.Parked, me)
+		e.scheduleFrom(s, false)
+		return true
+	case short == "verifThreadID":
+		set(I64(s.CurID))
+		return true
 	case short == "verifTripBound":
 		s.TripBound = intArg(args[0])
 		set(nil)
@@ -244,6 +280,22 @@ func (e *Engine) verifAPI(s *State, f *Frame, call *ssa.Call, fn *ssa.Function, 
 		iv := args[2].(IfaceV)
 		e.decodeFixed(s, cells, iv.V, iv.T, big)
 		set(nil)
+		return true
+	case short == "verifDeepCopy":
+		iv := args[0].(IfaceV)
+		if iv.T == nil {
+			set(iv)
+			return true
+		}
+		set(IfaceV{T: iv.T, V: e.deepCopy(s, iv.V, iv.T, map[int]int{})})
+		return true
+	case short == "verifDeepEqual":
+		a, b := args[0].(IfaceV), args[1].(IfaceV)
+		if a.T == nil || b.T == nil {
+			set(Bool(a.T == nil && b.T == nil))
+			return true
+		}
+		set(e.deepEqual(s, a.V, b.V, a.T, true, 0))
 		return true
 	case short == "verifComparableErr":
 		iv := args[0].(IfaceV)
